@@ -6,7 +6,9 @@ THEOREMS = [NS + t for t in """C20_calc_fold C20_calc_fold_nodeset C20_calc_igno
 C20_calc_single C20_calc_largest_roundtrip C20_calc_rejects C20_calc_rejects_bad_level C20_calc_bad_number_of
 C20_calc_rejected_range_ignored C20_calc_range_loop_bound
 C20_calc_stdin_line_fresh C20_calc_stdin_lines_independent C20_calc_stdin_line_eq_cmdline
-C20_distrib_prints_n C20_distrib_rejects C20_distrib_invalid_number""".split()]
+C20_distrib_prints_n C20_distrib_rejects C20_distrib_invalid_number
+C20_calc_cpukind_filter C20_calc_cpukind_set C20_calc_cpukind_commutes_fold C20_calc_attr_filters_first C20_calc_default_nodes
+C20_calc_local_memory C20_calc_attr_loop_extends C20_calc_attr_conservative C20_calc_best_memattr_values""".split()]
 CHECK_MODULES = ["Hw.Props.C20"]
 TRUSTED = ["the C03/C04/C09/C11 models the calc model is built from (bitmap operators, the three set printers/parsers, covering / "
            "largest / distrib helpers, hwloc_type_sscanf / hwloc_obj_type_snprintf) are tied to the C by their own engines",
@@ -16,13 +18,16 @@ TRUSTED = ["the C03/C04/C09/C11 models the calc model is built from (bitmap oper
            "(byte-identical export, dump equality after reload / after diff|patch)"]
 ASSUMPTIONS = ["the tool is always given `-i <synthetic|xml>` (plus optionally --if and --restrict <set|nodeset=set>) first; --restrict "
                "is applied by the harness with the same library calls to the topology whose dump the model receives; the other "
-               "topology options (--cpukind, --disallowed, --restrict-flags; hwloc-distrib --ignore) are exercised for crashes only",
+               "topology options (--disallowed, --restrict-flags; hwloc-distrib --ignore) are exercised for crashes only; leading --cpukind options are modelled",
                "no input class is excluded: the former defect classes F40-F44 are fixed in /repo and are ordinary generated and "
                "corpus cases (reversed ranges, non-positive widths, open ranges beyond the level width, invalid -N/-I/-H types, "
                "unnamed objects under os=/misc=, non-numeric hwloc-distrib numbers)",
-               "model answers `skip` (exit class and stdout not compared, crashes still are) for: cpukind/memorytier pseudo-levels, "
-               "--local-memory*, --best-memattr, --default-nodes (in stdin mode these are still checked on the real tool by the SL runs: "
-               "every output line equals the command-line run of that input line), --help/--version, numbers with white space or signs where libc "
+               "CPU kinds and memory attribute values are what the harness reads through the public API on the topology the tool loads "
+               "(hwloc_cpukinds_get_info, hwloc_memattr_get_value / get_initiators: C15 / C14 check those); the NUMA level, the local-node "
+               "selection and the default nodeset are the C14 model over the dump",
+               "model answers `skip` (exit class and stdout not compared, crashes still are) for: --local-memory-flags / --cpukind / --best-memattr "
+               "numbers outside plain decimal (strtoul base 0, atoi overflow), `$` tokens longer than a flag name, MemoryTier infos that are "
+               "not 1-4 digits, --help/--version, numbers with white space or signs where libc "
                "accepts them, list-format indexes >= 2^21, loops of more than 4096 iterations, --no-smt on an infinite set",
                "C20_calc_largest_roundtrip is stated under Tree d (derived from WF d and the DFS numbering in Hw/Topo/WFTree.lean) for "
                "finite sets inside the root cpuset; that the printed Type:index names parse back to the same objects is the C11 "
@@ -30,7 +35,7 @@ ASSUMPTIONS = ["the tool is always given `-i <synthetic|xml>` (plus optionally -
 MODELLED = ("modelled: hwloc-calc.h 47-803 (append modes, level and range parsers, object ranges incl. nesting and wrap-around, "
             "special levels by index, os=/misc= names, pci=busid, bracket filters [tier=] [subtype=] [vendor:device], raw sets in three "
             "formats with the format guess, all/root), hwloc-calc.c "
-            "main option loop, stdin mode (lineFold / lineOut / stdinLoop: both accumulators reset before every line) and hwloc_calc_output (--no-smt, --single, --largest, -N, -I, -H, four output formats), "
+            "main option loop, stdin mode (lineFold / lineOut / stdinLoop: both accumulators reset before every line) and hwloc_calc_output (--cpukind filter, --no-smt, --default-nodes, --single, --largest, -N, -I (incl. cpukind / memorytier), -H, --local-memory with flags and --best-memattr (misc.h parse_flags / best_node helpers), four output formats), "
             "hwloc-distrib.c option loop and output; exercised but not modelled: hwloc_utils_lookup_input_option / "
             "enable_input_format, lstopo.c option parsing and its xml/synthetic back ends, hwloc-diff.c, hwloc-patch.c "
             "(compared with the library by the harness), the graphical/text lstopo back ends (out of the property)")
